@@ -66,8 +66,12 @@ def harness_env():
 def harness_limits():
     """a harness process gone wild (a library loop that logs without end) must not take the machine down: cap its
     address space well above anything a sane run needs (a few hundred MiB)"""
+    import ctypes
     import resource
+    import signal
     resource.setrlimit(resource.RLIMIT_AS, (24 << 30, 24 << 30))
+    # ... and it must not outlive the check that started it (a check killed by a timeout used to leave it spinning)
+    ctypes.CDLL(None).prctl(1, signal.SIGKILL)   # PR_SET_PDEATHSIG
 
 
 def run_harness(argv, timeout):
